@@ -131,7 +131,8 @@ Edits(p) ==
                  IF id = 9 THEN "add-arg" ELSE "add-arg-in-the-middle")
        \/ \E ai \in Idx(p.services[vi].methods[mi].args) :
             Edit(p, [p EXCEPT !.services[vi].methods[mi].args = SeqRemove(@, ai)], "remove-arg")
-  \/ \E vi \in Idx(p.services), e \in {"", "Other"} : Edit(p, [p EXCEPT !.services[vi].extends = e], "change-extends")
+  \/ \E vi \in Idx(p.services), e \in {"", "Other", "inca.Base0", "incb.Base0"} :     \* (two included files declare a Base0 of their own)
+        e # p.services[vi].extends /\ Edit(p, [p EXCEPT !.services[vi].extends = e], "change-extends")
   \/ \E ci \in Idx(p.scopes) :
        \/ \E pre \in {<<"foo", "{vvv}", "bar">>, <<"foo", "{usr}", "baz">>, <<"foo", "{usr}">>, <<>>, <<"foo", "{usr}", "{extra}", "bar">>} :
             Edit(p, [p EXCEPT !.scopes[ci].prefix = pre], "change-prefix")
